@@ -193,7 +193,7 @@ def declare_io(e):
     e.method_models[("Hasher", "update")] = m_update
 
     def m_hexdigest(eng, s, recv, mname, args, kw, node):
-        f = eng.uf("md5hex", [z3.StringSort()], z3.StringSort())
+        f = eng.uf("ghost_md5hex", [z3.StringSort()], z3.StringSort())
         return [(s, Val(STR, f(eng.read_field(s, recv, "data").t)))]
     e.method_models[("Hasher", "hexdigest")] = m_hexdigest
 
